@@ -147,6 +147,9 @@ func (h264dp *h264Depacketizer) depacketizeFuA(packet *Packet) (err error) {
 	if (fuHeader>>7)&1 == 1 { // 第一个分片包
 		h264dp.fragments = h264dp.fragments[:0]
 	}
+	if (fuHeader>>7)&1 == 0 && len(h264dp.fragments) == 0 { // 起始分片已丢失，丢弃整个单元
+		return
+	}
 	if len(h264dp.fragments) != 0 &&
 		h264dp.fragments[len(h264dp.fragments)-1].SequenceNumber != packet.SequenceNumber-1 {
 		// Packet loss ?
